@@ -6,6 +6,14 @@ import os
 
 V = os.path.dirname(os.path.dirname(os.path.abspath(__file__)))
 D = {
+ "C01-1": ("src/tables.rs shape_hash and isomorphic_to (two cooperating sites) no longer look at the completion tables",
+           "two same-shaped within-word expressions in one grammar, one using `||` and one using `|` inside the word; they then share one emitted table set"),
+ "C01-2": ("src/bash.rs emitted __complgen_match: the typed prefix is no longer %q-quoted and acts as a glob pattern",
+           "a partially typed word containing * ? or ["),
+ "C03-1": ("src/dfa.rs do_minimize: stops using a splitter once the splitter itself has been split (`break` when the popped block left the partition)",
+           "a block split by its own preimage (a `...` loop inside one block) plus another symbol that alone separates two states; ~4 of 1200 random grammars"),
+ "C03-2": ("src/dfa.rs do_minimize: the start state gets a singleton block in the initial partition",
+           "an automaton in which some other state is equivalent to the start state (separator-style loops such as `a [b a]...`)"),
  "C02-1": ("src/check.rs specialize_nonterminals: the 'has a plain definition' case hoisted before the shell-specific lookup, so a plain <X> beats <X@shell>",
            "a nonterminal with both a plain definition and a specialisation for the shell being compiled"),
  "C02-2": ("src/check.rs do_propagate_fallback_levels: Fallback arm passes fallback_level + i instead of i",
